@@ -34,6 +34,21 @@ type c03Case struct {
 	Repeat    int    `json:"repeat,omitempty"`      // codec layer: number of repeated encryptions compared
 	FileSrc   bool   `json:"file_source,omitempty"` // ops layer: members come from real *os.File sources, as the CLI passes them
 	TapeLike  bool   `json:"tape_like_writer,omitempty"`
+	// Name of the entry ("" = /f); suffix-name cases use a name ending in the pipeline's own
+	// suffix and keep its stem as the sibling
+	Name    string `json:"name,omitempty"`
+	Sibling string `json:"sibling,omitempty"`
+}
+
+func (c c03Case) names() (string, string) {
+	fn, gn := c.Name, c.Sibling
+	if fn == "" {
+		fn = "/f"
+	}
+	if gn == "" {
+		gn = "/g"
+	}
+	return fn, gn
 }
 
 func drawContentSize(t *rapid.T, rs int) int {
@@ -257,6 +272,7 @@ func firstDiff(a, b []byte) int {
 }
 
 func c03Ops(f failer, cfg world.Cfg, c c03Case) {
+	fn, gn := c.names()
 	if c.FileSrc {
 		hist.FileBackedSources = world.NewDir("src")
 		defer func() { os.RemoveAll(hist.FileBackedSources); hist.FileBackedSources = "" }()
@@ -281,29 +297,30 @@ func c03Ops(f failer, cfg world.Cfg, c c03Case) {
 			}
 		}
 	}
-	res := r.Do(hist.Step{Op: "arch_archive", Members: []hist.Member{{Path: "/f", Kind: "file", Size: c.Size, Dist: c.Dist, Seed: c.Seed, Perm: 0644, Mtime: 1e18}, {Path: "/g", Kind: "file", Size: 3, Dist: 3, Seed: 9, Perm: 0600, Mtime: 1e18}}})
+	res := r.Do(hist.Step{Op: "arch_archive", Members: []hist.Member{{Path: fn, Kind: "file", Size: c.Size, Dist: c.Dist, Seed: c.Seed, Perm: 0644, Mtime: 1e18}, {Path: gn, Kind: "file", Size: 3, Dist: 3, Seed: 9, Perm: 0600, Mtime: 1e18}}})
 	if res.Hang != nil {
 		failf(f, "%s", res.Hang.Detail)
 	}
 	if res.Err != nil {
 		failf(f, "Archive(%s, %d bytes) failed: %v", cfg, c.Size, res.Err)
 	}
-	c03Check(f, w, "/f", content, "after Archive")
-	c03Check(f, w, "/g", hist.Bytes(3, 3, 9), "after Archive (second member)")
+	c03Check(f, w, fn, content, "after Archive")
+	c03Check(f, w, gn, hist.Bytes(3, 3, 9), "after Archive (second member)")
 	// replace the content
 	content2 := hist.Bytes(c.Size/2+1, (c.Dist+1)%4, c.Seed+1)
-	res = r.Do(hist.Step{Op: "arch_update", Replace: true, Members: []hist.Member{{Path: "/f", Kind: "file", Size: c.Size/2 + 1, Dist: (c.Dist + 1) % 4, Seed: c.Seed + 1, Perm: 0644, Mtime: 1e18}}})
+	res = r.Do(hist.Step{Op: "arch_update", Replace: true, Members: []hist.Member{{Path: fn, Kind: "file", Size: c.Size/2 + 1, Dist: (c.Dist + 1) % 4, Seed: c.Seed + 1, Perm: 0644, Mtime: 1e18}}})
 	if res.Hang != nil {
 		failf(f, "%s", res.Hang.Detail)
 	}
 	if res.Err != nil {
 		failf(f, "Update(replace) failed: %v", res.Err)
 	}
-	c03Check(f, w, "/f", content2, "after Update(replace)")
-	c03Check(f, w, "/g", hist.Bytes(3, 3, 9), "after Update of a sibling")
+	c03Check(f, w, fn, content2, "after Update(replace)")
+	c03Check(f, w, gn, hist.Bytes(3, 3, 9), "after Update of a sibling")
 }
 
 func c03FS(f failer, cfg world.Cfg, c c03Case) {
+	fn, gn := c.names()
 	w := c03WorldOpts(f, cfg, c.TapeLike)
 	defer func() { os.RemoveAll(w.Opts.Dir) }()
 	defer func() { w.Close() }()
@@ -318,7 +335,11 @@ func c03FS(f failer, cfg world.Cfg, c c03Case) {
 			failf(f, "%s failed: %v", s, res.Err)
 		}
 	}
-	must(hist.Step{Op: "create", Path: "/f", Slot: 0})
+	sib := hist.Bytes(5, 3, 4)
+	must(hist.Step{Op: "create", Path: gn, Slot: 1})
+	must(hist.Step{Op: "write", Slot: 1, Size: 5, Dist: 3, Seed: 4})
+	must(hist.Step{Op: "close", Slot: 1})
+	must(hist.Step{Op: "create", Path: fn, Slot: 0})
 	// write in c.Chunks pieces via the same deterministic content
 	sl := r.Slots[0]
 	n := c.Chunks
@@ -335,11 +356,12 @@ func c03FS(f failer, cfg world.Cfg, c c03Case) {
 		}
 	}
 	must(hist.Step{Op: "close", Slot: 0})
-	c03Check(f, w, "/f", content, "after Create/Write/Close")
+	c03Check(f, w, fn, content, "after Create/Write/Close")
 	// a fresh instance over the same index and tape
 	must(hist.Step{Op: "reopen"})
 	w = r.W
-	c03Check(f, w, "/f", content, "after reopening the instance")
+	c03Check(f, w, fn, content, "after reopening the instance")
+	c03Check(f, w, gn, sib, "sibling after reopening the instance")
 }
 
 func c03Run(f failer, cfg world.Cfg, c c03Case) {
@@ -416,6 +438,13 @@ func TestC03(t *testing.T) {
 			// signer's tee, or vs the record-sized buffer of the tape write path)
 			c.FileSrc, c.TapeLike = false, false
 			live.S.Exclude("F-29")
+		}
+		if cs, es := hist.PipelineSuffix(cfg); cs+es != "" && c.Layer != "codec" && rapid.IntRange(0, 3).Draw(t, "suffix_name") == 0 {
+			c.Name, c.Sibling = "/f"+cs+es, "/f"
+			if cs != "" && es != "" && rapid.Bool().Draw(t, "partial_suffix") {
+				c.Name = "/f" + rapid.SampledFrom([]string{cs, es}).Draw(t, "part")
+			}
+			live.S.Class("name_ends_in_pipeline_suffix")
 		}
 		c03Run(t, cfg, c)
 	})
